@@ -31,7 +31,7 @@ def required_buckets(tier):
     return ['C13/form/int', 'C13/form/label', 'C13/form/string_cell', 'C13/form/slice', 'C13/form/tuple_atom_atom',
             'C13/form/tuple_slice_atom', 'C13/form/tuple_atom_slice', 'C13/form/tuple_slice_slice', 'C13/form/list',
             'C13/form/malformed', 'C13/labels/default', 'C13/labels/custom', 'C13/labels/28rows', 'C13/step/2', 'C13/step/3',
-            'C13/open_end', 'C13/step/backwards', 'C13/subslice/looked_at_parent', 'C13/subslice/negative_index', 'C13/labels/callers_list_changed']
+            'C13/open_end', 'C13/step/backwards', 'C13/subslice/looked_at_parent', 'C13/subslice/negative_index', 'C13/labels/callers_list_changed', 'C13/subslice/index_past_the_selection']
 
 
 def plan(tier, seed):
@@ -93,13 +93,30 @@ def subslices(rng, case, idx):
         for a, b, c in itertools.product(vals(w), vals(w), steps):
             items.append((slice(None), slice(a, b, c)))
             items.append((slice(0, 1), slice(a, b, c)))
-        for i_, j_ in itertools.product(range(-h, h), range(-w, w)):
+        for i_, j_ in itertools.product(range(-h - 1, h + 1), range(-w - 1, w + 1)):
             items.append((i_, j_))
+        for i_ in range(-h - 1, h + 1):
+            items.append(i_)
         for n_, item in enumerate(items):
             try:
                 want = numpy.asarray(grid[item])
                 if want.ndim == 0:
                     want = want.reshape(1, 1)
+                elif want.ndim == 1:
+                    want = want.reshape(1, -1)          # (one row of the selection)
+            except IndexError:
+                # an index past the selection: refused (as on a plate, or a list selection) - not an empty selection
+                M.count('ADDR')
+                M.count('ADDR.rejected')
+                M.bucket('C13/subslice/index_past_the_selection')
+                try:
+                    sub_ = plate[par][item]
+                    sub_.get()
+                except Exception:   # noqa
+                    continue
+                M.violate(['C13', 'C07'], 'ADDR', 'C13:slice_of_slice_accepts_an_index_past_the_selection',
+                          {'plate': [Rn, Cn], 'parent': repr(par), 'item': repr(item), 'name': sub_.name, 'shape': tuple(sub_.shape)})
+                continue
             except Exception:
                 continue
             exp = [cells[int(k_)] for k_ in want.flatten()]
